@@ -1,0 +1,53 @@
+//go:build verif
+
+package hydraidego
+
+import (
+	"reflect"
+	"sort"
+
+	"github.com/hydraide/hydraide/sdk/go/hydraidego/v3/hydraidepbgo"
+)
+
+// Accessors for the C22 verification harness (build tag verif only; add-only).
+
+// VerifC22TagNames returns the tag constants the Catalog converters are compiled with:
+// key, value, omitempty, expireAt, createdBy, createdAt, updatedBy, updatedAt (in this
+// order), followed by the sorted members of reservedHydraideTagNames.
+func VerifC22TagNames() (named []string, reserved []string) {
+	named = []string{tagKey, tagValue, tagOmitempty, tagExpireAt, tagCreatedBy, tagCreatedAt, tagUpdatedBy, tagUpdatedAt}
+	for k := range reservedHydraideTagNames {
+		reserved = append(reserved, k)
+	}
+	sort.Strings(reserved)
+	return named, reserved
+}
+
+// VerifC22MsgpackMagic returns the two prefix bytes of wrapped msgpack blobs.
+func VerifC22MsgpackMagic() (byte, byte) { return msgpackMagic0, msgpackMagic1 }
+
+// VerifC22Inspect exposes inspectCatalogModel: shape (0 key-only, 1 single value, 2 map
+// body), the body fields as (name, struct index, omitempty), and the error.
+func VerifC22Inspect(t reflect.Type) (shape int, names []string, idx []int, omit []bool, err error) {
+	s, fields, e := inspectCatalogModel(t)
+	for _, f := range fields {
+		names = append(names, f.Name)
+		idx = append(idx, f.Index)
+		omit = append(omit, f.OmitEmpty)
+	}
+	return int(s), names, idx, omit, e
+}
+
+// VerifC22Encode exposes convertCatalogModelToKeyValuePair.
+func VerifC22Encode(model any, msgpackEncoding bool) (*hydraidepbgo.KeyValuePair, error) {
+	enc := EncodingGOB
+	if msgpackEncoding {
+		enc = EncodingMsgPack
+	}
+	return convertCatalogModelToKeyValuePair(model, enc)
+}
+
+// VerifC22Decode exposes convertProtoTreasureToCatalogModel.
+func VerifC22Decode(t *hydraidepbgo.Treasure, model any) error {
+	return convertProtoTreasureToCatalogModel(t, model)
+}
